@@ -10,3 +10,4 @@ import NutsModel.Thm.C19Settings
 import NutsModel.Thm.C02
 import NutsModel.Thm.C18
 import NutsModel.Thm.C15
+import NutsModel.Thm.C14
